@@ -1603,7 +1603,8 @@ class Mps(MatrixProduct):
                 tensor = tensordot(tensor, ms, ([0,-1],[0,-1]))
             else:
                 tensor = tensordot(tensor, ms, ([0,-1,-2],[0,-1,-2]))
-            assert xp.allclose(tensor, tensor.T.conj())
+            # hermiticity self-check relative to the size of the (un-normalised) matrix
+            assert xp.allclose(tensor, tensor.T.conj(), atol=1e-8 * float(xp.abs(tensor).max()))
             # tensor[p, q] = sum conj(psi_p) psi_q = <q|rho|p>: conjugate to return <p|rho|q>
             rdm[ims] = asnumpy(tensor).conj()
 
